@@ -428,4 +428,21 @@ theorem ignore_missing_keeps_everything_else (t : IncTarget) :
 
 example : includeResolve (.many [.name .notFound, .name .broken, .name (.found "a")]) true = .error .syntaxError := rfl
 
+/-- `ignore missing` guards the lookup only (`includeGuard`: the `try:` body holds the lookup, the target is rendered in
+    the `else:` arm): once the named template is found, the statement does exactly what rendering that template does —
+    its text, or ANY exception raised while it renders, a `TemplateNotFound` / `TemplatesNotFound` of a template the
+    target itself includes, imports or extends included — with the flag as without it. -/
+theorem ignore_missing_guards_lookup_only (t : IncTarget) (ignoreMissing : Bool) (render : Name → Except Err String)
+    (n : Name) (h : t.load = .ok n) : includeStmt t ignoreMissing render = render n := by
+  simp [includeStmt, includeResolve, h]
+
+/-- … and the flag turns exactly a failed lookup with a not-found error into "no output"; every other failed lookup
+    fails the statement as before -/
+theorem ignore_missing_statement (t : IncTarget) (render : Name → Except Err String) (e : Err) (h : t.load = .error e) :
+    includeStmt t true render = (if e.isNotFound then .ok "" else .error e) ∧ includeStmt t false render = .error e := by
+  cases hn : e.isNotFound <;> simp [includeStmt, includeResolve, h, hn]
+
+example : includeStmt (.single (.name (.found "partial"))) true (fun _ => .error .templateNotFound)
+    = .error .templateNotFound := rfl
+
 end JinjaV.C05
